@@ -2,6 +2,7 @@ CONSTANTS
   T = {0, 1, 2, 3}
   Configs = {}
   Variant = "load"
+  VariantE = "load"
   OrdCloneInc = "Relaxed"
   OrdDropDec = "Release"
   OrdDropFence = "Acquire"
